@@ -336,7 +336,8 @@ def IgnoreDb.check (ig : IgnoreDb) (now : Int) (h : Str) : Bool :=
 ignore database make it return `True`), `none` = it falls through to the recipient's channel record.
 `getUserId` raising DuplicateHostmask (a ValueError) is not caught there. -/
 def ignoredGlobal (db : Db) (ig : IgnoreDb) (defaultIgnore : Bool) (now : Int) (h : Str) : R (Option Bool) :=
-  match db.lookup now h with
+  -- a prefix that is not nick!user@host is not looked up as an account name: `raise KeyError`
+  match (if isUserHostmask h then db.lookup now h else .missing) with
   | .duplicate => .error .value
   | .missing =>
     if defaultIgnore then .ok (some true)
@@ -367,6 +368,8 @@ inductive Dispatch
 deriving DecidableEq, Repr
 
 def ownerDoPrivmsg (db : Db) (ig : IgnoreDb) (defaultIgnore : Bool) (now : Int) (h : Str) : Dispatch :=
+  -- `if not ircutils.isUserHostmask(msg.prefix): return`: no commands for servers, services, bare nicks
+  if !isUserHostmask h then .silent else
   match checkIgnored db ig defaultIgnore now h with
   | .ok true => .silent
   | .ok false => .dispatch
@@ -442,6 +445,7 @@ def floodGuard (floodOn : Bool) (queued maximum : Nat) (trusted : R Bool) (banma
 the dispatch decision and the ignore database afterwards. -/
 def ownerDoPrivmsgFlood (db : Db) (ig : IgnoreDb) (defaultIgnore : Bool) (now : Int) (h : Str)
     (floodOn : Bool) (queued maximum : Nat) (banmask : Str) (punishment : Int) : Dispatch × IgnoreDb :=
+  if !isUserHostmask h then (.silent, ig) else
   match checkIgnored db ig defaultIgnore now h with
   | .ok true => (.silent, ig)
   | .error e => (.crashed e, ig)
